@@ -90,8 +90,11 @@ def channel_roundtrip(v):
         except BaseException:  # noqa
             usable = False
         return ("EXC", excname(e), wrote, usable and len(ioa.written) == before + 1 and not cha.isclosed())
-    for fr in ioa.written[before:]:
-        gb.Message.from_io(_Rd(fr)).received(gbb)
+    try:
+        for fr in ioa.written[before:]:
+            gb.Message.from_io(_Rd(fr)).received(gbb)
+    except BaseException as e:  # noqa  (the peer's receiver thread would die here)
+        return ("EXC-peer", excname(e))
     try:
         return C.canon(chb.receive(timeout=0))
     except BaseException as e:  # noqa
